@@ -92,6 +92,11 @@ META = {
   tie="Run: streams of k generated values (and truncated ones) through /repo's pull decoders over byte slices and scripted readers (read sizes 1..bufsize varying per call, data with or before io.EOF, buffer sizes 1..64): each of the first k Next calls must deliver exactly the next value, then io.EOF; a stream ending inside a value must not end in io.EOF; outcome must equal the decoder model's.",
   note="",
   technique="Coq proof + scripted-reader differential runs"),
+ "C19": dict(
+  thm="Theorems (coq/Properties/C19.v): for every step function that reads the package-level state and reads/writes only its own instance, every number of instances and every schedule, each instance's final state and results equal those of running alone (interleaving_irrelevant); the footprint premise `globals_frozen globals = true` is proved by computation on a table that tools/globals regenerates from /repo's type-checked sources on every run (every package-level variable, its class, and every assignment, write-through, address-of or hand-on outside init()).",
+  tie="Run: the translator + the two theorems, then N goroutines running fold/encode/parse/unfold pipelines on their own instances over shared values and freshly created types under the race detector, each goroutine's results compared with the sequential results.",
+  note="The data-race half is runtime behaviour: the theorem covers the logic (footprint + all schedules), the race detector samples executions: partial. Trusts the Go memory model (DRF-SC). ",
+  technique="Coq proof over all schedules + source-to-Coq translator for the shared-state footprint + race-detector runs"),
  "C20": dict(
   thm="Coq theorems over all capacities and all key histories: every get of the modelled cache returns exactly the requested bytes in fresh memory, never panics, and refines an abstract LRU list (C20_cache_transparent, C20_fresh, C20_bounded).",
   tie="The model is tied to gotype/symbols.go by running the extracted model and the real cache (hook) on the same generated histories and comparing returned strings, cache order and index size after overwriting every key buffer.",
